@@ -616,6 +616,43 @@ Example C01_loop_rotation_any_level_example :
                1 (-1) 6 [7; 20] [6] (fun _ _ => true) 40 41 8 9 [30; 31; 32] = true.
 Proof. vm_compute. reflexivity. Qed.
 
+(* the rotation of a loop with SEVERAL headers at ANY level of a hierarchy keeps every flat walk: the
+   level's dictionary, header unification (Edits2.insert_cb; the entries are blocks of the level) followed by
+   the rotation on the unified head, whose variable is reused as the exit variable (LoopEdit.loop_rotate),
+   written back.  Proof (Model/UniHierPath.v) by the route of the rotation with one header: Flatten,
+   CbRename + LoopRename2 (both edits commute with the resolution of region names; the unified head is
+   processed although it carries a table), LoopHierPath.link, LoopPath2.unified_rotation_keeps_walks.
+   The boolean premise is evaluated on every call with several headers the pipeline makes, together with
+   the comparison of write_back h lvl g1' with the hierarchy the implementation produced. *)
+From V Require Import Model.UniHierPath Model.UniHierApplic.
+Theorem C01_unified_rotation_any_level_preserves_paths_b :
+  forall h lvl top H v entries headers names_cb exits todo isback latch sexit bv fresh strict,
+    walk_pre_uni h lvl top H v entries headers names_cb exits todo isback latch sexit bv fresh = true ->
+    exists nl g0 g1 tbl g1',
+      find h lvl = Some nl /\ collect h (children_h nl) = Some g0 /\
+      insert_cb g0 H v entries headers names_cb C_HEAD = Ok g1 /\
+      loop_rotate g1 H headers exits todo true tbl isback latch sexit v bv fresh = Ok g1' /\
+      forall n e e' ds tr st,
+        (exists b p, find h n = Some b /\ n_kind b = KOrig p) ->
+        E (Fu v bv) e e' ->
+        WTrace h (resolve_flat h) strict n e ds tr st ->
+        WTrace (write_back h lvl g1') (resolve_flat (write_back h lvl g1')) strict n e' ds tr st.
+Proof. exact unified_rotation_h_keeps_walks_b. Qed.
+Print Assumptions C01_unified_rotation_any_level_preserves_paths_b.
+
+(* non-vacuity: the loop {6, 7} entered at both blocks from 5, left towards 8 and towards the loop region
+   20 (header 21); unified head 40, its assignment blocks 41 42, latch 43, exit branch 48 *)
+Example C01_unified_rotation_any_level_example :
+  walk_pre_uni [ mkNode 1 0 [] [] (KRegion 1 0 0 [5; 6; 7; 8; 20] 0 true);
+                 mkNode 5 1 [6; 7] [] (KOrig 1);
+                 mkNode 6 1 [7; 20] [] (KOrig 1);
+                 mkNode 7 1 [6; 8] [] (KOrig 1);
+                 mkNode 8 1 [] [] (KOrig 1);
+                 mkNode 20 1 [8] [] (KRegion 2 21 21 [21] 1 true);
+                 mkNode 21 20 [21; 8] [21] (KOrig 1) ]
+               1 (-1) 40 8 [5] [6; 7] [41; 42] [8; 20] [6; 7; 40] (fun p _ => negb (Z.eqb p 40)) 43 48 9 [44; 45; 46; 47] = true.
+Proof. vm_compute. reflexivity. Qed.
+
 (* the early return of loop_restructure_helper (the single latch is the single exiting block: only a back
    edge is declared) keeps every flat walk, at any level (Model/BeOnly.v): hierarchies of the same size whose
    blocks agree on successors and class have the same flat walks *)
